@@ -5,7 +5,7 @@ CONSTANTS
   Rules <- AllRules
   Cfg <- CfgPoS3
   MaxLive = 2
-  MaxNum = 6
+  MaxNum = 5
   MaxNow = 2
   MaxTx = 1
   MaxBal = 2
